@@ -648,7 +648,9 @@ impl expr::Expr
 						let right = propagate!(
 							right_expr.eval_with_ctx(report, ctx, provider)?);
 
-						let left_usize = left.expect_usize(report, span)? + 1;
+						let left_usize = left.expect_usize(report, span)?
+							.checked_add(1)
+							.ok_or_else(|| report.error_span("value is out of supported range", span))?;
 						let right_usize = right.expect_usize(report, span)?;
 
 						Ok(expr::Value::make_integer(
